@@ -108,6 +108,12 @@ class Spec:
             for h in self.H:
                 for o in ("+", "-", "*", "^"):
                     out.append(["binop", o, h])
+            # the other operand is a different graph (own store, own content) that carries the same identifier
+            for h in self.H:
+                out.append(["iadd", h, "same-id"])
+                out.append(["isub", h, "same-id"])
+                for o in ("+", "-", "*", "^"):
+                    out.append(["binop", o, h, "same-id"])
         if self.sibling:
             for t in (V.triples[0], V.triples[1]):
                 out.append(["sib_add", list(t)])
@@ -115,8 +121,8 @@ class Spec:
             out.append(["sib_remove", [None, None, None]])
         return out
 
-    def _operand(self, h):
-        g = Graph(bind_namespaces="none")
+    def _operand(self, h, like=None):
+        g = Graph(bind_namespaces="none") if like is None else Graph(identifier=like.identifier, bind_namespaces="none")
         for t in self.H[h]:
             g.add(T(t))
         return g
@@ -153,14 +159,14 @@ class Spec:
                     S.m.add(t)
                 S.last = "addN:" + who
             elif k == "iadd":
-                S.g += self._operand(op[1])
+                S.g += self._operand(op[1], S.g if len(op) > 2 else None)
                 S.m |= set(self.H[op[1]])
             elif k == "isub":
-                S.g -= self._operand(op[1])
+                S.g -= self._operand(op[1], S.g if len(op) > 2 else None)
                 S.m -= set(self.H[op[1]])
             elif k == "binop":
                 o, h = op[1], op[2]
-                H = self._operand(h)
+                H = self._operand(h, S.g if len(op) > 3 else None)
                 hs = set(self.H[h])
                 before = set(S.m)
                 if o == "+":
